@@ -356,5 +356,112 @@ Fixpoint monitor_from (pre : state) (base : option kvs) (taint : list N) (moved 
 Definition monitor (st0 : state) (tr : list (op * (status * state))) : list N :=
   monitor_from st0 None [] None tr.
 
+(** ** 4. Predicates used in the statements of the theorems *)
+
+(** same fabric table (looked up by index) *)
+Definition cfg_eq (a b : list fabric) : Prop := forall i, fget i a = fget i b.
+
+(** RAM holds exactly what the store holds: RAM = load(KV) *)
+Definition ram_synced (st : state) : Prop :=
+  cfg_eq (s_fabs st) (k_fabs (s_kv st)) /\ s_nets st = load_nets (s_kv st).
+
+(** a PASE session is on fabric 0 unless AddNOC of the running fail-safe period upgraded it *)
+Definition pase_ok (st : state) : Prop :=
+  match s_pase st, s_fs st with
+  | PLive pf, Idle => pf = 0
+  | PLive pf, Armed f fl => pf = 0 \/ (pf = f /\ fl_add_noc fl = true)
+  | _, _ => True
+  end.
+
+(** The invariant of every reachable state: outside a fail-safe period RAM = load(KV) and the
+    breadcrumb is 0; inside, RAM and store differ at most at the fabric of the fail-safe context
+    (and in the networks, the breadcrumb), and that fabric is in the table. *)
+Definition Inv (st : state) : Prop :=
+  fget 0 (s_fabs st) = None /\ fget 0 (k_fabs (s_kv st)) = None /\ pase_ok st /\
+  match s_fs st with
+  | Idle => ram_synced st /\ s_bc st = 0
+  | Armed f fl =>
+    (forall i, i <> f -> fget i (s_fabs st) = fget i (k_fabs (s_kv st))) /\
+    (f <> 0 -> fget f (s_fabs st) <> None)
+  end.
+
+(** Operations outside the subject of the theorems: an IMMEDIATE store that fails. *)
+Definition good_op (o : op) : Prop :=
+  match o with OAclW _ _ fail => fail = false | _ => True end.
+
+(** The known class "context switch": AddNOC on a CASE session while that session's fabric has
+    staged (unpersisted) changes - the fail-safe context moves to the new fabric and the staged
+    changes of the old one are orphaned. *)
+Definition orphaning (st : state) (o : op) : bool :=
+  match o with
+  | OAddNoc (SC f) _ => negb (ofabric_eqb (fget f (s_fabs st)) (fget f (k_fabs (s_kv st))))
+  | _ => false
+  end.
+
+Fixpoint safe_run (st : state) (ops : list op) : Prop :=
+  match ops with
+  | [] => True
+  | o :: r => good_op o /\ orphaning st o = false /\ safe_run (fst (step st o)) r
+  end.
+
+(** nothing reaches the store during the run *)
+Fixpoint nothing_stored (st : state) (ops : list op) : Prop :=
+  match ops with
+  | [] => True
+  | o :: r => s_kv (fst (step st o)) = s_kv st /\ nothing_stored (fst (step st o)) r
+  end.
+
+(** The operations that can write the store at all: CommissioningComplete (and its cut
+    variant), and an ACL write on a fabric the fail-safe is not armed for. *)
+Definition may_store (st : state) (o : op) : bool :=
+  match o with
+  | OComplete _ _ | OCompleteCut _ _ => true
+  | OAclW s _ _ =>
+    match sess_ctx st s, s_fs st with
+    | Some (g, _), Armed f _ => negb (f =? g)
+    | _, _ => true
+    end
+  | _ => false
+  end.
+
+(** The ways a commissioning ends without being completed. *)
+Inductive rollback_op : op -> Prop :=
+| RbTimeout : rollback_op OTimeout
+| RbRestart : rollback_op ORestart
+| RbForce : forall s bc, rollback_op (OArm s 0 bc)
+| RbRevoke : forall s, rollback_op (ORevoke s).
+
+(** Commands that are only accepted from the fail-safe's own context. *)
+Definition needs_ctx (o : op) : bool :=
+  match o with
+  | OCsr _ _ | ORoot _ _ | OAddNoc _ _ | OUpdNoc _ _ | ONetAdd _ _ _ | ONetDel _ _
+  | OComplete _ _ => true
+  | OArm _ t _ => negb (t =? 0)
+  | _ => false
+  end.
+
+(** The word of credential commands accepted so far in the running fail-safe period,
+    carried along a run. *)
+Definition track (st : state) (w : list cred) (o : op) : list cred :=
+  let '(st', r) := step st o in
+  match s_fs st' with
+  | Idle => []
+  | Armed _ _ =>
+    match s_fs st with
+    | Idle => []
+    | Armed _ _ =>
+      match cred_of o, r with
+      | Some c, StOk => w ++ [c]
+      | _, _ => w
+      end
+    end
+  end.
+
+Fixpoint track_run (st : state) (w : list cred) (ops : list op) : state * list cred :=
+  match ops with
+  | [] => (st, w)
+  | o :: r => track_run (fst (step st o)) (track st w o) r
+  end.
+
 Definition max_fabrics_n : N := N.of_nat MAX_FABRICS.
 Definition max_nets_n : N := N.of_nat MAX_NETS.
